@@ -834,6 +834,11 @@ def r910(db, ctx):
 
 def run(db, ctx):
     r910(db, ctx)
+    from . import C14
+    # (the core-only fact base of the thorough tier has no I/O crate: the rule is evaluated where the crate is built)
+    if any(p_.startswith('lightmotif_io::') for p_ in db.fns):
+        common.shared_rule(db, ctx, C14.r1412, 'R9.11', 'the TRANSFAC record\'s own to_freq has the form of CountMatrix::to_freq: (value + pseudocount) / total of the whole '
+                           'pseudocounted row, every row and column (shared with R14.12; seed C09-11 totalled the raw row)', ['R14.12'])
     r99(db, ctx)
     r91(db, ctx)
     r92(db, ctx)
